@@ -1,8 +1,9 @@
 #!/bin/bash
-# usage: seed2.sh <ID> [extra check ids]  : verify /tmp/seed2/<ID>/patch{1,2,3} as <ID>-4..6 and run the property's check on them
+# usage: seed2.sh <ID> [extra check ids]  : verify $SRC/<ID>/patch{1,2,3} (default /tmp/seed2) as <ID>-(OFFSET+1..3) (default 3) and run the property's check on them
 id=$1; shift
+src=${SRC:-/tmp/seed2}; off=${OFFSET:-3}
 for k in 1 2 3; do
-  n=$((k+3))
-  SEED_NAME=$id-$n python3 /verif/lib/seedverify.py /tmp/seed2/$id $k $id 2>&1 | tail -1 | cut -c1-220
+  n=$((k+off))
+  SEED_NAME=$id-$n python3 /verif/lib/seedverify.py $src/$id $k $id 2>&1 | tail -1 | cut -c1-220
   [ -f /verif/seeded/$id-$n/patch.diff ] && python3 /verif/lib/seedtest.py /verif/seeded/$id-$n/patch.diff $id "$@" 2>&1 | cut -c1-260
 done
